@@ -358,7 +358,8 @@ def main(tier, replay=None):
                     'hand model of state_write / state_write_content / state_verify_content / state_rename_content (state.c) as an operation list, tied to the '
                     'real binary by the system-call log of harness/c/c09_shim.c (order check + kill at every numbered call)',
                     'bit-serial CRC-32C of Crc/CrcModel.v (its equality with the table / slicing code of util.c is C16\'s obligation)',
-                    'harness/c/c09_shim.c (LD_PRELOAD: open/write/fsync/rename/unlink/remove/close numbering, kill, short write, frozen time() and statfs())',
+                    'harness/c/c09_shim.c (LD_PRELOAD: open/write/fsync/rename/unlink/remove/close numbering, kill, short write, write faults (bit flip, silent truncation, ENOSPC, EIO), frozen time() and statfs())',
+                    'harness/py/content.py (independent decoder) through c09_fields.py to locate the string fields for the length-boundary mutants',
                     'gcc AddressSanitizer + UndefinedBehaviorSanitizer for the memory-safety part, which is TESTED, not proved',
                     'independent oracles: byte/mtime snapshots of the array, Python CRC-32C (bitwise definition), old/new byte comparison after kills'])
     try:
@@ -396,7 +397,9 @@ def main(tier, replay=None):
                              'in input_distribution); the tie of the models to the C: system-call order + kill points for the save model, accept/reject class of '
                              '`snapraid -C` against the extracted CodecModel.decode on every mutant for the loader model.')
     chk.cov['conditional_theorems'] = CONDITIONAL
-    chk.assumptions = ['rename(2) is atomic and a completed system call survives the death of the process (process kill, not power loss: fsync ordering on a real '
+    chk.assumptions = ['UUID_MAX = 128 and PATH_MAX = 4096 are the string buffer capacities of state_read_content (the length-boundary mutants aim at them; '
+                       'CodecModel states the same constants)',
+                       'rename(2) is atomic and a completed system call survives the death of the process (process kill, not power loss: fsync ordering on a real '
                        'disk is outside this check)',
                        'a torn write leaves a prefix of the intended bytes',
                        'the frozen clock/statfs of the shim make old/new reproducible; verified on every run by a second un-killed twin']
